@@ -19,7 +19,7 @@ TECHNIQUE = ("model-based generation of error sequences and policy decisions (Hy
 RULE = ("A case is 1-3 fake nodes with a fixed plan, one statement (simple / bound / batch, consistency level unset or "
         "ONE/QUORUM/ALL, idempotent or not), an optional constant speculative-execution policy, a script of answers for the "
         "successive attempts (7 retryable server errors, connection close/reset, non-retryable errors, rows, void; each "
-        "optionally after a pause longer than the speculative delay) and a decision oracle: the list of (RETRY | "
+        "optionally after a pause longer than the speculative delay) and a decision oracle (installed on the execution profile or on the statement): the list of (RETRY | "
         "RETRY_NEXT_HOST | RETHROW | IGNORE, consistency None/ANY/ONE/QUORUM/ALL) the policy returns.  The fake nodes decode "
         "every frame (host, consistency).  Without a speculative plan (no policy, or statement not idempotent) the reference "
         "model predicts the exact frame sequence, the policy consultations (method, retry_num) and the outcome; with a "
@@ -47,13 +47,14 @@ def s_case(gran):
     # a run of failing attempts, then a final answer
     script = st.tuples(st.lists(step(err), max_size=5), st.lists(step(last), max_size=1)).map(lambda t: t[0] + t[1])
     go_on = st.tuples(st.sampled_from(["retry", "retry", "next_host"]), st.sampled_from(CLS)).map(list)
-    anyd = st.tuples(st.sampled_from(["retry", "next_host", "rethrow", "ignore"]), st.sampled_from(CLS)).map(list)
+    anyd = st.tuples(st.sampled_from(["retry", "next_host", "rethrow", "ignore", "ignore"]), st.sampled_from(CLS)).map(list)
     decisions = st.tuples(st.lists(go_on, max_size=4), st.lists(anyd, max_size=2)).map(lambda t: t[0] + t[1])
     return st.fixed_dictionaries({
         "hosts": st.sampled_from([1, 2, 3, 3]),
         "stmt": st.sampled_from(["simple", "simple", "bound", "batch"]),
         "cl": st.sampled_from([None, "ONE", "QUORUM", "ALL"]),
         "idempotent": st.booleans(),
+        "policy_on": st.sampled_from(["profile", "profile", "statement"]),
         "spec": st.sampled_from([0, 0, 1, 2]),
         "spec_delay": st.sampled_from([0.0, 0.05]),
         "script": script,
@@ -151,8 +152,11 @@ def _run(case, ctx, sim):
     net = sim.net
     n = case["hosts"]
     rlog = []
+    trap = []
+    policy = F.scripted_policy(case["decisions"], rlog)
+    on_stmt = case.get("policy_on") == "statement"
     prof = ExecutionProfile(load_balancing_policy=U.fixed_plan_policy(),
-                            retry_policy=F.scripted_policy(case["decisions"], rlog),
+                            retry_policy=F.scripted_policy([], trap) if on_stmt else policy,
                             request_timeout=None,
                             speculative_execution_policy=ConstantSpeculativeExecutionPolicy(case["spec_delay"], case["spec"])
                             if case["spec"] else None)
@@ -166,8 +170,13 @@ def _run(case, ctx, sim):
         timeline.append((index[node.address], req["consistency"], len(rlog)))
         return ("hold",)
 
+    stmt = None
     with ctx.driver(["C16.prepare"]):
         stmt = _statement(case, sim, session)
+    if stmt is None:
+        return
+    if on_stmt:
+        stmt.retry_policy = policy
     for nd in nodes:
         nd.on_request = user
     concurrent = bool(case["spec"]) and case["idempotent"]
@@ -216,6 +225,9 @@ def _run(case, ctx, sim):
     sim.settle()
     sim.advance(0.5)
 
+    if trap:
+        ctx.fail(["C16.policy-source", "statement-policy-bypassed"],
+                 "the statement carries its own retry policy but the execution profile's policy was consulted %d time(s)" % len(trap))
     # ---- invariants valid in both modes
     errs_delivered = sum(1 for a in answered if a in F.ERRORS or a in F.CONN_ERRORS)
     performed = 0
@@ -316,7 +328,7 @@ def _run(case, ctx, sim):
                         ctx.fail(["C16.outcome", "rows", "expected=%s" % outcome[1]], "expected rows %r, got %r" % (want, rows))
                 ctx.label("outcome:%s" % outcome[1])
     n_frames = len(timeline)
-    ctx.label("mode=%s" % mode, "stmt=%s" % case["stmt"], "consulted=%d" % min(len(rlog), 4), "frames=%d" % min(n_frames, 5))
+    ctx.label("mode=%s" % mode, "stmt=%s" % case["stmt"], "policy-on-%s" % case.get("policy_on", "profile"), "consulted=%d" % min(len(rlog), 4), "frames=%d" % min(n_frames, 5))
     if case["spec"] and not case["idempotent"]:
         ctx.label("spec-policy+non-idempotent")
     if overlap:
